@@ -13,7 +13,8 @@ CONSTANTS
     IdentityEvict = TRUE
     CloseReleasesBlob = TRUE
     CloseFiles = TRUE
+    StampOnlyOnSuccess = TRUE
 SPECIFICATION MonSpec
 INVARIANTS HeldLayerServes AllReleasedAndEvictedFreesEverything ClosedMeansGone NoOpenFilesAfterClose FailedResolveLeaksNothing HeldReadsWork BurstSharesOneInstance SampleServes
-PROPERTIES ReadWorks ReturnedIsCached NoDuplicateCreation ResolveAgainWorks
+PROPERTIES ReadWorks ReturnedIsCached NoDuplicateCreation ResolveAgainWorks CheckNotFooled
 CHECK_DEADLOCK FALSE
